@@ -120,4 +120,32 @@ def expected (p : Plan) : Result :=
       { events := [.start] ++ (List.range j).map (fun i => Ev.ser i true) ++ [.ser j false, .end_ false],
         closed := true, raised := some c, ran := j + 1 }
 
+/-! ### A failure *between* nodes: publishing a node's output raises
+
+After node `k` returned (its SER written) the orchestrator forwards the output through its transport; that call may raise
+(a remote transport that drops).  Where the call sits decides what the trace looks like: after the per-node `try` the
+exception goes straight to the pipeline-level handler; inside it the per-node handler sees a node that already reported. -/
+
+/-- Nodes `0 … k` return, then publishing node `k`'s output raises an exception of class `c`.
+    `publishOutside`: the publish call sits after the per-node try (and inside the pipeline-level one). -/
+def runPublishFault (sh : LifecycleShape) (publishOutside : Bool) (k : Nat) (c : ExcClass) : Result :=
+  let oks := (List.range (k + 1)).map (fun i => Ev.ser i true)
+  let body : List Ev × Option ExcClass :=
+    if publishOutside then ((if sh.serOnSuccess then oks else []), some c)
+    else if catches sh.nodeCatchesBase c then
+      -- the per-node handler runs for a node whose success record is already written
+      ((if sh.serOnSuccess then oks else []) ++ (if sh.serOnError then [Ev.ser k false] else []), if sh.nodeReraises then some c else none)
+    else ((if sh.serOnSuccess then oks else []), some c)
+  match body.2 with
+  | none => { events := [Ev.start] ++ body.1 ++ (if sh.endOkAfterLoop then [Ev.end_ true] else []), closed := sh.closeInFinally, raised := none, ran := k + 1 }
+  | some c' =>
+    if catches sh.pipeCatchesBase c' then
+      { events := [Ev.start] ++ body.1 ++ (if sh.endErrInHandler then [Ev.end_ false] else []), closed := sh.closeInFinally,
+        raised := if sh.pipeReraises then some c' else none, ran := k + 1 }
+    else { events := [Ev.start] ++ body.1, closed := sh.closeInFinally, raised := some c', ran := k + 1 }
+
+/-- The documented stream for that failure: every started node has exactly one SER — it succeeded — and the run ends in error. -/
+def expectedPublishFault (k : Nat) (c : ExcClass) : Result :=
+  { events := [Ev.start] ++ (List.range (k + 1)).map (fun i => Ev.ser i true) ++ [Ev.end_ false], closed := true, raised := some c, ran := k + 1 }
+
 end SemantivaModel.Trace
